@@ -118,6 +118,21 @@ func init() {
 			}
 			reqs = append(reqs, SearchReq{Query: q, Opts: o})
 		}
+		if idx%9 == 4 && len(words) > 0 {
+			// a query of about a thousand bytes whose last words are index terms, spelled with letters whose upper and lower case
+			// forms have different byte lengths (U+212A 3 bytes / k 1 byte, U+1E9E 3 / ß 2): any byte budget applied to the text
+			// as typed cuts the two spellings at different places
+			var sb strings.Builder
+			for sb.Len() < Pick(r, []int{960, 985, 995}) {
+				sb.WriteString(Pick(r, []string{"kelvin ", "look ", "disk ", "straße ", "kill ", "break "}))
+			}
+			tail := Pick(r, words) + " " + Pick(r, words)
+			lower := sb.String() + tail
+			o := genOptions(r)
+			o.Limit = 50
+			reqs = append(reqs, SearchReq{Query: lower, Opts: o},
+				SearchReq{Query: strings.ReplaceAll(strings.ReplaceAll(lower, "k", "K"), "ß", "ẞ"), Opts: o})
+		}
 		extra := []string{}
 		for _, q := range reqs {
 			extra = append(extra, "normq "+Hx(q.Query), "normq "+Hx(Pick(r, padPool)+q.Query+Pick(r, padPool)))
